@@ -23,9 +23,9 @@ Proof.
   intros H; inversion H; now left.
 Qed.
 
-Lemma built_table_sound G M c : BuildParsingTable G = Some (M, c) -> table_sound G M.
+Lemma built_table_sound G O M c : oracle_ok G O -> BuildParsingTable G O = Some (M, c) -> table_sound G M.
 Proof.
-  destruct (analyse_total G) as [nu [fi [fo [_ [_ [_ Ea]]]]]].
+  intros HO. destruct (analyse_total G O HO) as [nu [fi [fo [_ [_ [_ Ea]]]]]].
   unfold BuildParsingTable. rewrite Ea. simpl. intros H; inversion H; subst.
   intros A la p Hp. apply get_production_In, table_build_cell in Hp. tauto.
 Qed.
